@@ -96,9 +96,11 @@ structure BCfg where
   deferExec : Bool := Gen.Blocking.execAtomic || !Gen.Blocking.wakeAtPush
   notifyOnce : Bool := !Gen.Blocking.notifyPerElement
   noticeHangup : Bool := Gen.Blocking.noticeBlockedHangup
+  sweep : Bool := Gen.Dispatch.sweepAfterScript
 
 def freshState (b : BCfg) : State :=
-  { cfgDeferExecWakes := b.deferExec, cfgNotifyOnce := b.notifyOnce, cfgNoticeHangup := b.noticeHangup }
+  { cfgDeferExecWakes := b.deferExec, cfgNotifyOnce := b.notifyOnce, cfgNoticeHangup := b.noticeHangup,
+    cfgSweepAfterScript := b.sweep }
 
 structure St where
   w : Switches := codeSwitches
@@ -115,6 +117,7 @@ def setCfg (b : BCfg) (kv : String) : Option BCfg :=
     if k == "deferExec" then some { b with deferExec := x }
     else if k == "notifyOnce" then some { b with notifyOnce := x }
     else if k == "noticeHangup" then some { b with noticeHangup := x }
+    else if k == "sweep" then some { b with sweep := x }
     else none
   | _ => none
 
@@ -140,7 +143,7 @@ def step (st : St) (ws : List String) : St × String :=
   match ws with
   | ["reset"] => ({ st with s := freshState st.b, seen := [] }, "ok")
   | ["blockingcfg"] =>
-    (st, s!"deferExec={b01 st.b.deferExec} notifyOnce={b01 st.b.notifyOnce} noticeHangup={b01 st.b.noticeHangup}")
+    (st, s!"deferExec={b01 st.b.deferExec} notifyOnce={b01 st.b.notifyOnce} noticeHangup={b01 st.b.noticeHangup} sweep={b01 st.b.sweep}")
   | "blockingcfg" :: kvs =>
     match kvs.foldlM setCfg st.b with
     | some b => ({ st with b := b, s := freshState b, seen := [] }, "ok")
